@@ -427,6 +427,121 @@ fn mt_multi_err(rng: &mut Rng, idx: usize) -> String {
     )
 }
 
+/// A sink on a real stream that is slower than its source, and may fail.
+struct SlowSink {
+    src: rustradio::stream::ReadStream<u8>,
+    calls: usize,
+    fail_at: Option<usize>,
+}
+impl BlockName for SlowSink {
+    fn block_name(&self) -> &str {
+        "SlowSink"
+    }
+}
+impl BlockEOF for SlowSink {
+    fn eof(&mut self) -> bool {
+        self.src.eof()
+    }
+}
+impl Block for SlowSink {
+    fn work(&mut self) -> Result<BlockRet> {
+        self.calls += 1;
+        if Some(self.calls) == self.fail_at {
+            return Err(rustradio::Error::msg("scripted failure in block 1"));
+        }
+        let (rb, _) = self.src.read_buf()?;
+        if rb.is_empty() {
+            return Ok(BlockRet::WaitForStream(&self.src, 1));
+        }
+        let n = rb.len().min(100);
+        rb.consume(n);
+        std::thread::sleep(std::time::Duration::from_millis(1));
+        Ok(BlockRet::Again)
+    }
+}
+
+/// Real streams: an infinite source blocked on a full output stream must still see a
+/// cancellation / the failure of its consumer, and `run()` must return.
+fn real_stream_case(idx: usize, mt: bool, fail: bool) -> String {
+    rustradio::verif::set_stream_size(4096);
+    let (src, o) = rustradio::blocks::ConstantSource::new(7u8);
+    rustradio::verif::set_stream_size(0);
+    let sink = SlowSink { src: o, calls: 0, fail_at: if fail { Some(10) } else { None } };
+    let label = format!("real-streams #{idx} {} {}: ConstantSource -> slow sink", if mt { "mt" } else { "st" }, if fail { "sink fails on call 10" } else { "cancel after 30 ms" });
+    let _wd = deadline(30, format!("{label}: run()"));
+    let res = if mt {
+        let mut g = MTGraph::new();
+        let token = g.cancel_token();
+        g.add(Box::new(src));
+        g.add(Box::new(sink));
+        let th = (!fail).then(|| {
+            std::thread::spawn(move || {
+                std::thread::sleep(std::time::Duration::from_millis(30));
+                token.cancel();
+            })
+        });
+        let r = quiet(|| g.run());
+        if let Some(th) = th {
+            th.join().unwrap();
+        }
+        r
+    } else {
+        let mut g = Graph::new();
+        let token = g.cancel_token();
+        g.add(Box::new(src));
+        g.add(Box::new(sink));
+        let th = (!fail).then(|| {
+            std::thread::spawn(move || {
+                std::thread::sleep(std::time::Duration::from_millis(30));
+                token.cancel();
+            })
+        });
+        let r = quiet(|| g.run());
+        if let Some(th) = th {
+            th.join().unwrap();
+        }
+        r
+    };
+    let r = result_str(&res);
+    let ok = if fail { r == "err 1" } else { r == "ok" };
+    format!("!{label}\t{}", if ok { "pass".to_string() } else { format!("FAIL result={r}") })
+}
+
+/// A block whose failing call is also the call during which the graph is cancelled: the failure
+/// must still be reported.
+fn err_with_cancel(rng: &mut Rng, idx: usize, mt: bool) -> String {
+    let nb = rng.range(1, 3);
+    let mut scripts: Vec<Vec<Call>> = (0..nb)
+        .map(|_| (0..rng.range(0, 4)).map(|_| Call { v: V::Again, eof_after: false, moved: false }).collect())
+        .collect();
+    let f = rng.below(nb);
+    let at = scripts[f].len();
+    scripts[f].push(Call { v: V::Err, eof_after: false, moved: false });
+    let forever: Vec<bool> = (0..nb).map(|i| i != f).collect();
+    let own: Vec<Option<usize>> = (0..nb).map(|i| if i == f { Some(at + 1) } else { None }).collect();
+    let label = format!("err-with-cancel #{idx} {} blocks={nb} failing={f} at call {}", if mt { "mt" } else { "st" }, at + 1);
+    let _wd = deadline(60, format!("{label}: run()"));
+    let res = if mt {
+        let mut g = MTGraph::new();
+        let token = g.cancel_token();
+        let built = build(&scripts, &forever, &token, None, &own);
+        for b in built.blocks {
+            g.add(Box::new(b));
+        }
+        quiet(|| g.run())
+    } else {
+        let mut g = Graph::new();
+        let token = g.cancel_token();
+        let built = build(&scripts, &forever, &token, None, &own);
+        for b in built.blocks {
+            g.add(Box::new(b));
+        }
+        quiet(|| g.run())
+    };
+    let r = result_str(&res);
+    format!("!{label}\t{}", if r == format!("err {f}") { "pass".to_string() } else { format!("FAIL result={r}") })
+}
+
 pub fn run(args: &[String]) -> Vec<String> {
     let seed = arg_usize(args, "--seed", 1) as u64;
     let cases = arg_usize(args, "--cases", 500);
@@ -455,6 +570,13 @@ pub fn run(args: &[String]) -> Vec<String> {
         for i in 0..cancels {
             let mut r = rng.fork();
             out.push(cancel_case(&mut r, i % 2 == 0, i));
+        }
+        for i in 0..(cancels / 4).max(2) {
+            let mut r = rng.fork();
+            out.push(err_with_cancel(&mut r, i, i % 2 == 0));
+        }
+        for i in 0..4 {
+            out.push(real_stream_case(i, i % 2 == 0, i / 2 == 1));
         }
     }
     out
